@@ -17,7 +17,11 @@ CORRESPONDENCE = ("cache state machine of recursion/src/recursion.rs (prove_next
                   "prove_aggregation_layer{,_cross} AggregationPrepCache: hit / miss / fill, whose preparation data "
                   "is used, content of the cache variable after each call), aggregation_circuit_fingerprint and "
                   "equality of preprocessed columns of generated circuits vs lean/P3R/Model/Cache.lean "
-                  "(step, run, fingerprint, fingerprintX, structureOf) + Model/Roles.lean (genPrep)")
+                  "(step, run, fingerprint, fingerprintX, structureOf) + Model/Roles.lean (genPrep); "
+                  "table lists of every FRI backend impl (recursion/src/backend/fri.rs, D = 2 / 4 / 5: non_primitive_provers, "
+                  "non_primitive_preprocessors, non_primitive_air_builders) as consumed by prove_all_tables, "
+                  "get_airs_and_degrees_with_prep and verify_p3_batch_proof_circuit vs lean/P3R/Model/Tables.lean "
+                  "(carried, airList, accepts)")
 
 
 def _read(p):
@@ -44,6 +48,20 @@ def _same(impl, model):
     return True
 
 
+def _deg_cov(deg):
+    """Per configuration of the FRI backend: the three lists as the real plugins report them, whether a
+    proof of the backend's own verification circuit is accepted by the next step, the real chains run and
+    the observations (recompose NPO switched off by the integrator: not judged, see trusted_base)."""
+    recs = deg.get("records", [])
+    tables = {r["config"]: {"provers": r["lists"]["provers"], "carried": r["lists"]["carried"],
+                            "air_list": r["lists"]["air_list"], "prep_keys": r["lists"]["prep_keys"],
+                            "accepted_by_next": r["accepted_by_next"], "aligned": r["aligned"]}
+              for r in recs if "lists" in r}
+    return {"tier": deg.get("tier"), "offered": deg.get("configurations", []), "tables": tables,
+            "chains": [{"chain": r["chain"], "steps": r["steps"], "completed": r["completed"]} for r in recs if "steps" in r],
+            "observations": [{k: r[k] for k in ("observation", "chain", "step", "detail")} for r in recs if "observation" in r]}
+
+
 def run(ctx):
     tier, seed, work = ctx["tier"], ctx["seed"], ctx["work"]
     out = f"{work}/run0"
@@ -60,11 +78,14 @@ def run(ctx):
         os.makedirs(f"{work}/replay_corpus", exist_ok=True)
         json.dump(rp.get("replay", rp), open(f"{work}/replay_corpus/r.json", "w"))
         corpus, generate, histories, real_n = f"{work}/replay_corpus", 0, 0, 0
+        degrees = "tables"     # cheap, and the `chain` replays are run from the corpus directory
     else:
+        degrees = tier
         corpus, generate = f"{ctx['root']}/corpus/c17", 1
         histories, real_n = (600, 6) if tier == "quick" else (20000, 150)
     cmd = [harness, "layers", "--seed", str(seed), "--histories", str(histories), "--real", tier,
-           "--real-histories", str(real_n), "--corpus", corpus, "--generate", str(generate), "--out", out]
+           "--real-histories", str(real_n), "--corpus", corpus, "--generate", str(generate), "--degrees", degrees,
+           "--out", out]
     rc, o = ctx["sh"](cmd, timeout=7200)
     if rc != 0 or not os.path.exists(f"{out}/c17.report.json"):
         violations.append({"class": "harness-crash", "what": f"harness layers exited {rc}: {o[-300:]}",
@@ -75,6 +96,16 @@ def run(ctx):
     for v in rep["violations"]:
         # one report per (class, family): the same defect shows up in many generated histories
         key = (v["class"], v.get("family"))
+        if str(v.get("family", "")).startswith(("tables:", "chain:")):
+            seen[key] = seen.get(key, 0) + 1
+            if seen[key] > 2:
+                continue
+            where = (f"step {v.get('step')} of the chain {v['replay'].get('plan')}" if "step" in v
+                     else "table lists of the backend on its own verification circuit")
+            violations.append({"class": v["class"],
+                               "what": f"configuration {v.get('config')} ({where}): {v.get('detail', '')[:400]}",
+                               "replay": v["replay"]})
+            continue
         seen[key] = seen.get(key, 0) + 1
         if seen[key] > 2:
             continue
@@ -94,7 +125,7 @@ def run(ctx):
     while model and model[-1] == "":
         model.pop()
     # the case line of output line k: circ blocks answer once (at endcirc), ext/hist answer per line
-    answering = [l for l in _read(f"{out}/c17.cases") if l.startswith(("endcirc", "ext ", "hist"))]
+    answering = [l for l in _read(f"{out}/c17.cases") if l.startswith(("endcirc", "ext ", "hist", "tabs"))]
     disagreements = 0
     for k in range(max(len(impl), len(model))):
         a = impl[k] if k < len(impl) else None
@@ -108,6 +139,15 @@ def run(ctx):
                                               "case_line": answering[k] if k < len(answering) else "",
                                               "first_difference": [a, b], "cases_file": f"{out}/c17.cases"},
                                    "no_input": True})
+    deg = _deg_cov(rep.get("degrees", {}))
+    if not ctx.get("replay"):
+        for cfgname in deg["offered"]:
+            if cfgname not in deg["tables"]:
+                violations.append({"class": "coverage-empty-cell", "what": f"no table-list record for backend configuration {cfgname}",
+                                   "replay": {"config": cfgname}, "no_input": True})
+            if not any(c["chain"].startswith(cfgname + ":") for c in deg["chains"]):
+                violations.append({"class": "coverage-empty-cell", "what": f"no real chain was run for backend configuration {cfgname}",
+                                   "replay": {"config": cfgname}, "no_input": True})
     hist = rep["hist"]
     nontrivial = len({l for l in answering if l.startswith("hist") and
                       any((t.startswith(("agg:", "cross:")) and not t.endswith(":-")) or
@@ -122,19 +162,26 @@ def run(ctx):
                    "next-layer prep: none, own, of an earlier call, of an arbitrary circuit}; real family: FRI backend, children "
                    "uni-STARK (AIRs x*x-z, x*y-z, x+y-z, x*y*y-z) and batch-STARK, depth <= 3, outputs of verified layers reused "
                    "as inputs (left or right), same cache patterns; distinct_nontrivial = distinct histories in which at least "
-                   "one call is offered a cache",
+                   "one call is offered a cache; degrees family (c17_deg.rs): for each of the 8 backend configurations "
+                   "{KoalaBear D4, BabyBear D4, Goldilocks D2, KoalaBear quintic D5} x {Poseidon2, Poseidon1 challenger} x recompose "
+                   "NPO {on, off}: the real plugins of the backend on the real verification circuit of a base proof (provers, "
+                   "preprocessor keys, air-builder acceptance, batch_instance on the real traces; no proof made), judged by the "
+                   "chaining condition and diffed against P3R.Tables; plus real chains base -> layer 1 -> layer 2 (quick: all 8; "
+                   "aggregation(l1, l1) -> layer 3 for Goldilocks D2 and quintic D5; thorough: 6-step mixed-depth plan for all 8), "
+                   "every output verified natively and offered to the next step",
            "samples": rep["samples"][:6], "input_distribution": hist,
            "traces_validated_against_impl": len(impl), "disagreements_checked": disagreements,
            "histories": sum(1 for l in answering if l.startswith("hist")),
            "circuits_compared_fingerprint_and_prep_class": sum(1 for l in answering if l.startswith("endcirc")),
            "corpus_witnesses_reproduced": rep.get("corpus_witnesses_reproduced", []),
            "harness_seconds": rep.get("seconds"),
+           "backend_configurations": _deg_cov(rep.get("degrees", {})),
            "known_not_reproduced": []}
     return violations, cov
 
 
 CHECK = {
-    "lean_modules": ["P3R.Props.C17", "P3R.Witness.C17"],
+    "lean_modules": ["P3R.Props.C17", "P3R.Witness.C17", "P3R.Props.C17Tables", "P3R.Witness.C17Tables"],
     "lean_exes": ["p3r_driver_c17"],
     "theorems": [
         "P3R.C17.cache_refines_uncached_digest", "P3R.C17.cache_refines_uncached_partial",
@@ -146,6 +193,12 @@ CHECK = {
         "P3R.Witness.C17.witness_next_now_refused", "P3R.Witness.C17.witness_satisfies_digest_hypothesis",
         "P3R.Witness.C17.counters_only_key_insufficient", "P3R.Witness.C17.constant_digest_insufficient",
         "P3R.Witness.C17.params_stale",
+        "P3R.C17Tables.accepts_iff", "P3R.C17Tables.accepts_carried_iff", "P3R.C17Tables.runChain_isSome_iff",
+        "P3R.C17Tables.chain_ok", "P3R.C17Tables.chain_refused", "P3R.C17Tables.chain_output",
+        "P3R.C17Tables.agg_ok_iff", "P3R.C17Tables.base_always_ok", "P3R.C17Tables.airList_singletons",
+        "P3R.Witness.C17Tables.consistent_chain", "P3R.Witness.C17Tables.split_flag_mismatch_depth1_ok",
+        "P3R.Witness.C17Tables.split_flag_mismatch_refused", "P3R.Witness.C17Tables.split_flag_mismatch_agg_refused",
+        "P3R.Witness.C17Tables.recompose_off_refused",
     ],
     "run": run,
     "trusted_base": [
@@ -170,7 +223,16 @@ CHECK = {
         "the same config (PCS, FRI parameters, ZK seed) is used for every call that shares a cache (documented requirement "
         "of the API; the config is a fixed value in all histories); ProveNextLayerParams may change: a hit then proves with "
         "the stored params and the proof, which records its packing, still verifies (observed per run, Witness.C17.params_stale)",
-        "ZK (HidingFriPcs) and D != 4 configurations are not run",
+        "ZK (HidingFriPcs) configurations are not run. D = 2 (Goldilocks) and D = 5 (KoalaBear quintic) are run through "
+        "plain chains (base -> layers -> aggregations, no cache); the cache histories use KoalaBear D = 4 only (the cache "
+        "logic of recursion.rs is generic in D)",
+        "chaining condition of P3R.C17Tables.runChain_isSome_iff: every table prover the backend lists finds a trace in "
+        "every verification circuit of that backend. Checked per run on the real plugins for the 8 configurations the "
+        "library is instantiated for (tables leg); it FAILS when the integrator's prepare_circuit_for_verification does "
+        "not enable the recompose NPO (noop_enable_recompose, the examples' --disable-recompose-npo) because the backend "
+        "has no switch for that: layer outputs then verify natively and are refused as the next input. Recorded as "
+        "observation (coverage.backend_configurations.observations), not judged: the configuration is outside the "
+        "library's own set-up",
     ],
 }
 
@@ -193,7 +255,10 @@ MANIFEST_ENTRY = {
                 "on the circuits of the history (KeyDeterminesPrep derived, CallerPrepsMatch enforced by the repaired code); the "
                 "witnesses of the repaired findings F10 / F10b are regression cases on the real code every run; "
                 "chaining (output verifies natively and is accepted by a further layer, uni/batch, left/right) is exercised on "
-                "the real code, not proved",
+                "the real code for every extension degree the FRI backend offers (D = 2, 4, 5); its table-list part is proved "
+                "in the model (P3R.C17Tables.runChain_isSome_iff: a chain goes through iff the verifier-side table list of step "
+                "k+1 equals the prover-side list of step k) and the condition is checked on the real plugins of all 8 "
+                "configurations every run; the cryptographic part is not proved",
         "design_ref": "4/C17",
     },
     "level_note": "Lean kernel + 3 standard axioms; the model is tied to recursion.rs by line-exact comparison of what the real "
